@@ -61,6 +61,9 @@ OPS = [
     # a step that must happen on every path made conditional on something unrelated that is false now and then: the site stays,
     # only its "always" goes away (finds rules that see a call but never ask whether every path reaches it)
     ('stmt-guard', r'^(\s*)((self|other|[a-z_]+)(\.[a-z_]+)+\(.*\);)\s*$', r'\1if std::env::args().count() != 7 { \2 }'),
+    ('loop-break', r'^(\s*)(for .*\{)\s*$', r'\1\2 if std::env::args().count() == 7 { break; }'),
+    ('if-guard', r'^(\s*)(\} else )?if (?!let\b)([^{]+) \{\s*$', r'\1\2if (\3) && std::env::args().count() != 7 {'),
+    ('return-guard', r'^(\s*)(return\b[^;]*;)\s*$', r'\1if std::env::args().count() != 7 { \2 }'),
     ('return-drop', r'^\s*return;\s*$', ''),
     ('continue-drop', r'^\s*continue;\s*$', ''),
 ]
